@@ -246,6 +246,9 @@ func shapeCheck(e *expr.Expression, root bool) string {
 // runFlat runs a TOK / BYTES / EDIT unit, one case per input and default-field option.
 func runFlat(w *core.Worker, unit string, dfs []core.BStr) {
 	forEachFlat(unit, func(kind, text string) {
+		if w.Flooded() {
+			return
+		}
 		for _, df := range dfs {
 			w.Do(core.Case{Kind: kind, In: core.BStr(text), DF: df})
 		}
